@@ -10,7 +10,12 @@ RULE = ("random cases: a configuration (latency in {0,1,2,7,100,101} ms, fee in 
         "modes (4 356 cases). Every 10th random case is of the LARGE magnitude class (prices up to 1e6 with 2 decimals, quantities up to 1e4 with 3 decimals, balances up "
         "to 1e12: accepted notionals far above 1e4), every 10th of the SMALL class (prices / quantities / balances between 1e-9 and 1e-2, 6-9 decimals); both draw the fee "
         "from {0, 0.001, 0.0025, 0.075, 0.333, 0.5, 1, 1.5, 2, 5, -0.5, -2}; all classes stay inside what rust_decimal computes exactly (products of at most 20 significant "
-        "digits and 18 decimals). A case is distinct by the SHA-1 of its op lines and non-trivial when the implementation's observation blocks differ at least once")
+        "digits and 18 decimals). INPUT-DOMAIN family (a quarter as many cases again, own PRNG stream, ids d<n>): the generator keeps the ledger and places orders EXACTLY at the "
+        "funds boundary - the largest affordable quantity free / (price * (1 + fee)), that plus / minus one unit in the last place (1e-8 .. 1), its negative, its half - on both sides with fees "
+        "whose 1 + fee has a terminating reciprocal (0, 0.25, 1, -0.5, 0.6; also 0.001, -1, -2 without boundary orders); every time in force (ioc / fok / day / gtc / gtc post-only, 9th op "
+        "argument, observed as `echo_tif`) on market and limit orders; strategies from 2 and client order ids from 3 values (repeated ids, also across instruments); request times at 1.7e12 ms, "
+        "before the epoch and across a day boundary, a step back of 1 ms; latencies up to 60 001 ms; `trades since` exactly at / one ms around a fill's exchange time or far before everything; "
+        "up to 8 assets and 6 instruments. A case is distinct by the SHA-1 of its op lines and non-trivial when the implementation's observation blocks differ at least once")
 ASSUMPTIONS = [
     "configuration well formed: every initial balance has total = free and both assets of every configured instrument have a balance "
     "(otherwise MockExchange::open_order panics on its own assert_eq!/expect; model and harness both report `panic`, the spec is silent)",
